@@ -593,6 +593,18 @@ var (
 	{"go-embed-directive-detached-by-a-blank-line", `//go:embed embed_data.txt
 
 var detached$N string`, `detached$N`},
+	{"go-embed-directive-detached-with-other-comment-groups-between", `//go:embed embed_data.txt
+
+// TODO(someone): a free-standing note between the directive and the variable.
+
+// farDetached$N is documented as well.
+var farDetached$N string
+
+//go:embed embed_data.txt
+
+/* a block comment in between */
+
+var farDetachedB$N []byte`, `farDetached$N + string(farDetachedB$N)`},
 	{"local-generic-type-named-like-import-embedded-and-selected", `func GenEmb$N(s string) string {
 	type strings[T any] struct{ v T }
 	type W[T any] struct {
